@@ -134,8 +134,12 @@ def main(mod, tier, preimport=()):
     os.makedirs(REPLAY_DIR, exist_ok=True)
     for m in preimport:
         importlib.import_module(m)
-    shard_list = mod.shards(tier)
-    results = pmap(mod.__name__, shard_list, tier, jobs=getattr(mod, "JOBS", None))
+    if hasattr(mod, "drive"):
+        # multi-round exploration (level-synchronised BFS): the module calls core.pmap itself
+        results = mod.drive(tier)
+    else:
+        shard_list = mod.shards(tier)
+        results = pmap(mod.__name__, shard_list, tier, jobs=getattr(mod, "JOBS", None))
     herr = [r for r in results if "harness_error" in r]
     if herr:
         for r in herr[:3]:
